@@ -66,6 +66,10 @@ class PlotOptions(Plot):
         if self.legend and is_true(self.legend):
             plt.legend()
 
+    def do(self):
+        # Options on their own draw nothing.
+        pass
+
 def format_tick_labels(ticks):
     return [(format_float_tick(x) if isinstance(x, float) else x)
             for x in ticks]   
